@@ -1,7 +1,7 @@
 //! C22 — cell-reference and sheet-name codecs: implementation side of the correspondence
 //! (column letters, A1 / R1C1 reference parse + print, quote_name, the lexer's sheet prefix)
 //! and the property oracle (print → read back) evaluated on the implementation.
-use crate::common::*;
+use vh_common::*;
 use ironcalc_base::expressions::lexer::{Lexer, LexerMode};
 use ironcalc_base::expressions::parser::stringify::{to_english_string, to_rc_format};
 use ironcalc_base::expressions::parser::{new_parser_english, Node};
@@ -93,7 +93,9 @@ pub const NAME_ALPHABET: &[char] = &[
     '%', '^', '@', '~', '|', '<', '\t', 'é', '٣', '–', '中', '²', '😀', 'x',
 ];
 
-pub fn run(seed: u64, thorough: bool, out: &str, _extra: &[String]) {
+fn main() {
+    let a = Args::parse();
+    let (seed, thorough, out) = (a.seed, a.thorough, a.out.as_str());
     let mut rng = Rng::new(seed);
     let mut cs = Cases::new(out, "c22");
     let mut or = Oracle::default();
